@@ -8,7 +8,7 @@ pub mod improved;
 
 pub trait Heuristic {
     const MAX_FULL_MOVES: i32 = 1 << 20;
-    const MAX_HALF_MOVES: u32 = 50;
+    const MAX_HALF_MOVES: u32 = 100;
     #[inline(always)]
     fn win_score(&self) -> i32 { 1 << 24 }
     #[inline(always)]
